@@ -6,7 +6,8 @@ PROP = {
     "parallel": 2,
     "jobs": [
         job("udp-policy", "core", "./server/", "server",
-            ["harness/core/server/c07c08_fakes_test.go", "harness/core/server/c08_policy_test.go"],
+            ["harness/core/server/c07c08_fakes_test.go", "harness/core/server/c07c08_wb_none_test.go",
+             "harness/core/server/c08_policy_test.go"],
             "^TestVerifC08", ["udp-policy"], race=False,
             timeout_quick=300, timeout_thorough=3600),
         job("acl-udp", "extras", "./outbounds/", "outbounds",
@@ -17,9 +18,13 @@ PROP = {
     "min_events": 20000,
     "rule": ("server layer: per case a PRNG allow/deny table over 1..600 destination strings (host and port both matter; "
              "deny share 5..95 %) is applied by the fake outbound in UDP() and CheckUDP(); 1..2 sessions send 1..2000 "
-             "datagrams following one of 8 patterns (uniform, deny/allow alternation, fill-and-evict with re-probes of a "
+             "datagrams following one of 9 patterns (uniform, deny/allow alternation, fill-and-evict with re-probes of a "
              "denied and an allowed destination, denied first, zipf, mostly-denied overflow, >256 allowed first then the "
-             "denied ones, hostile fragments). Hostile client: fragment sets of ONE datagram whose fragments name "
+             "denied ones, hostile fragments, cross-session). Cross-session: 2..6 sessions of one connection name "
+             "literally the same destination strings; 1..3 hooked sessions open with a datagram addressed to a REJECTED "
+             "destination D that the hook rewrites (the policy never sees D for them), 1..3 plain sessions whose socket "
+             "exists send to D as a later destination, in the orders plain-first / D-already-rejected-for-the-plain-session "
+             "/ hooked-first, repeated and mixed with ordinary traffic: D must never receive a datagram. Hostile client: fragment sets of ONE datagram whose fragments name "
              "DIFFERENT destinations -- for 2 and 3 fragments every allowed/denied assignment in every arrival order, as "
              "first datagram of a session and on an established socket -- whole datagrams with FragCount 0/1 but FragID "
              "1/2/255, sets with FragID >= FragCount; the systematic enumeration is its own pattern and random hostile "
@@ -39,6 +44,8 @@ PROP = {
              "default outbound)."),
     "assumptions": [
         "the policy is a pure function of the destination string (as the property quantifies it)",
+        "the server-layer job is black-box: it uses newUDPSessionManager / Run / Count and the udpIO, UDPConn, "
+        "udpEventLogger interfaces only (no field of udp.go's structs, no constant)",
         "sub-outbounds behind the ACL engine answer CheckUDP and UDP consistently (fakes do)",
         "reference ACL evaluation: '*' in a name pattern matches any run of characters, names compare case-insensitively; "
         "IDN (xn--) hosts and, without a resolver stage, IP-literal hosts are excluded from the reference comparison",
